@@ -1,11 +1,17 @@
 use crate::report::Tier;
 
 pub mod c02;
+pub mod c12;
+pub mod c13;
+pub mod c17;
 pub mod common;
 
 pub fn dispatch(id: &str, tier: Tier) -> i32 {
     match id {
         "C02" => c02::run(tier).finish(),
+        "C12" => c12::run(tier).finish(),
+        "C13" => c13::run(tier).finish(),
+        "C17" => c17::run(tier).finish(),
         _ => {
             eprintln!("unknown property {id}");
             2
